@@ -195,6 +195,12 @@ def _worker(job):
     helper = 'xdverif_c16_helper_%d' % idx
     open(os.path.join(d, helper + '.py'), 'w').write(HELPER)
     src = gen_module(rng, helper)
+    if idx % 4 == 3:
+        # remarks that merely BEGIN like a PEP 484 type comment, where no type comment can stand (a line of their own in front of a
+        # definition, behind a class header): comments to the interpreter, whatever they say
+        import re as _re
+        src = _re.sub(r'(?m)^(def |class |async def )', "# type: a remark about the layout of what follows, not a type\n\\1", src, count=2)
+        src = _re.sub(r'(?m)^(class \w+[^\n]*:)$', '\\1  # type: a container, see above', src, count=1)
     modname = 'xdverif_c16_m%d' % idx
     path = os.path.join(d, modname + '.py')
     # how the file is saved: plain UTF-8, with a byte-order mark (editors on Windows write it), with CRLF line ends, with a coding cookie
